@@ -147,5 +147,10 @@ theorem C08_any_value_needs_attribute (attr : Nat) (x : VId) :
     simp at this
     simp [this]
 
+/-- "a value equal (==) to the one sought": a value that is not equal to itself (value class 8: `math.nan`, the SAME
+    object stored on the vertex and sought) matches no vertex — the test is `==`, never identity -/
+theorem C08_nan_never_matches (attr : Nat) (x : VId) : hasAttrVal w attr 8 x = false := by
+  simp [hasAttrVal]
+
 end TO
 end EG
